@@ -181,6 +181,10 @@ def gen_ops(rng, n, front_end="asyncio", p_invalid=0.3, typed=True, bodies=True)
             p = {"stateMachineArn": sm_arn(sm), "input": rng.choice(INPUTS)}
             if rng.random() < 0.8:
                 p["name"] = en
+                same = [e for (s_, e) in started if s_ == sm]
+                if same and rng.random() < 0.15:
+                    # an execution name used again (the service lets clients do that): the new run replaces the record
+                    p["name"] = en = rng.choice(same)
             else:
                 en = None
             if rng.random() < 0.2:
